@@ -155,9 +155,30 @@ pub fn observe_commit(c: &CompiledProgram) -> Outcome {
     }
 }
 
+thread_local! {
+    static BUFFER_TURN: std::cell::Cell<u32> = const { std::cell::Cell::new(0) };
+}
+
+/// How the source text reaches the library: three times out of four in a freshly allocated buffer
+/// that dies with the template (what `simc` and most callers do: the allocator may hand the same
+/// address to the next source), otherwise as a clone of one long-lived `Arc<str>`.
+fn source_buffer(text: &Arc<str>) -> Arc<str> {
+    let turn = BUFFER_TURN.with(|t| {
+        let v = t.get();
+        t.set(v.wrapping_add(1));
+        v
+    });
+    if turn % 4 == 3 {
+        Arc::clone(text)
+    } else {
+        Arc::from(&**text)
+    }
+}
+
 /// `TemplateProgram::new`
 pub fn new_template(text: &Arc<str>) -> Result<Result<TemplateProgram, String>, String> {
-    guarded(|| TemplateProgram::new(Arc::clone(text)))
+    let text = source_buffer(text);
+    guarded(|| TemplateProgram::new(text))
 }
 
 /// `TemplateProgram::instantiate`
@@ -179,7 +200,8 @@ pub fn compile_direct(text: &Arc<str>, args_json: &str, debug: bool) -> (Outcome
         Ok(a) => a,
         Err(e) => return (Outcome::Err(format!("arguments: {e}")), None),
     };
-    match guarded(|| CompiledProgram::new(Arc::clone(text), args, debug)) {
+    let text = source_buffer(text);
+    match guarded(|| CompiledProgram::new(text, args, debug)) {
         Err(p) => (Outcome::Panic(p), None),
         Ok(Err(e)) => (Outcome::Err(e), None),
         Ok(Ok(c)) => {
